@@ -7,6 +7,7 @@ Local Open Scope positive_scope.
 Ltac inv_bind H :=
   let st1 := fresh "st" in let a := fresh "a" in let H1 := fresh "H" in
   apply bind_ok in H; destruct H as (st1 & a & H1 & H).
+Ltac bind_as H s a E := apply bind_ok in H; destruct H as (s & a & E & H).
 
 (* ---------- python dicts *)
 Section DictLemmas.
@@ -163,7 +164,7 @@ Section Good2.
   Proof.
     intros G L (H1 & H2 & H3). split; [exact H1|]. split.
     - rewrite <- H2. unfold mval_canon. destruct (snd kv') as [z|o] eqn:E; [reflexivity|].
-      rewrite (cell_le _ _ _ _ _ G L); [reflexivity|]. apply (H3 o eq_refl).
+      rewrite (cell_le _ _ L); [reflexivity|]. apply (H3 o eq_refl).
     - intros o Ho. destruct (H3 o Ho) as [K1 K2]. split.
       + destruct L as [[L1 _] _]. lia.
       + destruct K2 as [K2|K2]; [left; exact K2|right]. eapply allowed_le; eassumption.
@@ -217,10 +218,7 @@ Section Good2.
     inv_bind H. apply get_value_ok in H0. destruct H0 as [-> Hc]. rename a into old.
     rewrite (old_cell _ _ _ _ _ G Hv) in Hc.
     assert (HL : forall y, In y (links (CValue old)) -> y < n0) by (intros y; apply (proj2 (Hcl0 _ _ Hc))).
-    inv_bind H. rename a into t, st1 into s1, H0 into E1.
-    inv_bind H. rename a into s, st1 into s2, H0 into E2.
-    inv_bind H. rename a into mp, st1 into s3, H0 into E3.
-    inv_bind H. rename a into me, st1 into s4, H0 into E4.
+    bind_as H s1 t E1. bind_as H s2 s E2. bind_as H s3 mp E3. bind_as H s4 me E4.
     destruct (clone_type_ok _ _ _ _ _ _ _ G (fun x Hx => HL x (lk_v_type _ _ Hx)) E1) as (G1 & F1 & C1).
     destruct (clone_shape_ok _ _ _ _ _ _ _ G1 (fun x Hx => HL x (lk_v_shape _ _ Hx)) E2) as (G2 & F2 & C2).
     destruct (clone_dict_ok _ _ _ _ _ _ _ G2 (HL _ (lk_v_mp _)) E3) as (G3 & F3 & C3).
@@ -250,9 +248,9 @@ Section Good2.
       assert (L1' : le s1 st') by (eapply le_trans; eassumption).
       assert (L2' : le s2 st') by (eapply le_trans; eassumption).
       assert (L3' : le s3 st') by (eapply le_trans; eassumption).
-      rewrite (type_canon_le _ _ _ _ _ G1 L1') by (intros x Hx; apply F1, Hx).
-      rewrite (shape_canon_le _ _ _ _ _ G2 L2') by (intros x Hx; apply F2, Hx).
-      rewrite (dict_canon_le _ _ _ _ _ G3 L3') by apply F3.
+      rewrite (type_canon_le _ _ L1') by (intros x' Hx'; apply F1, Hx').
+      rewrite (shape_canon_le _ _ L2') by (intros x' Hx'; apply F2, Hx').
+      rewrite (dict_canon_le _ _ L3') by apply F3.
       rewrite (meta_canon_le _ _ _ _ _ G4 L4) by apply F4.
       rewrite C1, C2, C3, (C4 W). reflexivity.
   Qed.
@@ -301,7 +299,7 @@ Section Good2.
     destruct H as (H1 & H2 & H3). split; [|split].
     - destruct L as [[L1 _] _]. lia.
     - destruct H2 as [H2|H2]; [left; exact H2|right; eapply allowed_le; eassumption].
-    - intros W. rewrite <- (H3 W). apply (vref_le _ _ _ _ _ G L). exact H1.
+    - intros W. rewrite <- (H3 W). apply (vref_le _ _ L). exact H1.
   Qed.
 
   Lemma clone_input_ok st st' i i' :
@@ -313,14 +311,15 @@ Section Good2.
       destruct (assoc v (vmap st0)) as [k|] eqn:E.
       + inversion H; subst. split; [exact G|]. destruct (g_vmap _ _ _ _ G _ _ E) as (K1 & K2 & K3).
         simpl. split; [apply K1|]. split; [left; apply K1|]. intros W. apply vref_of_vcanon. apply K3, W.
-      + destruct allow eqn:Ea; [|discriminate]. inv_bind H. unfold pass_add in H0. inversion H0; subst; clear H0.
-        inversion H; subst; clear H.
+      + assert (Ea : allow = true) by (clear G; destruct allow; [reflexivity|discriminate H]).
+        rewrite Ea in H. bind_as H sx ax Epa. unfold pass_add in Epa.
+        injection Epa as Hsx _. subst sx. unfold ret in H. injection H as Hs Hi'. subst st' i'.
         assert (G' : good (St (hp st0) (vmap st0) (v :: passed st0) (kept st0))).
         { apply good_ghost; [exact G|apply incl_tl, incl_refl|apply incl_refl|]. intros; exact Ea. }
         split; [exact G'|]. simpl. split; [|split].
         * pose proof (g_ext _ _ _ _ G) as [K _]. lia.
         * right. split; [exact Hi|]. right. right. left. simpl. left. reflexivity.
-        * intros _. apply (vref_old _ _ _ Hcl0 _ G'). exact Hi.
+        * intros _. apply (vref_old _ _ _ _ G'). exact Hi.
     - inversion H; subst. split; [exact G|exact I].
   Qed.
 End Good2.
